@@ -1,8 +1,141 @@
 // E3/E4 batch operations on real state (filled per property).
+use super::cryptoutil as cu;
 use serde_json::{json, Value};
 
 pub fn dispatch(op: &str, _req: &Value) -> Value {
 	match op {
+		"spin_test" => spin_test(_req),
+		"sigshapes" => sigshapes(_req),
 		_ => json!({"ok": false, "machinery_error": format!("unknown op {op}")}),
 	}
+}
+
+fn spin_test(req: &Value) -> Value {
+	use futures::stream::FuturesUnordered;
+	use futures::StreamExt;
+	let n = req.get("n").and_then(|v| v.as_u64()).unwrap_or(3);
+	let use_shim = req.get("shim").and_then(|v| v.as_bool()).unwrap_or(true);
+	let rt = tokio::runtime::Builder::new_current_thread().enable_all().start_paused(true).build().unwrap();
+	let t = std::time::Instant::now();
+	rt.block_on(async {
+		let lock = std::sync::Arc::new(super::sched::RwLock::new(0u32));
+		let lock2 = std::sync::Arc::new(async_lock::RwLock::new(0u32));
+		let mut fu = FuturesUnordered::new();
+		for i in 0..n {
+			let lock = lock.clone();
+			let lock2 = lock2.clone();
+			fu.push(async move {
+				tokio::time::sleep(std::time::Duration::ZERO).await;
+				if use_shim {
+					let mut g = lock.write().await;
+					tokio::time::sleep(std::time::Duration::from_millis(100)).await;
+					*g += 1;
+				} else {
+					let mut g = lock2.write().await;
+					tokio::time::sleep(std::time::Duration::from_millis(100)).await;
+					*g += 1;
+				}
+				i
+			});
+		}
+		while let Some(_) = fu.next().await {}
+	});
+	json!({"ok": true, "wall_ms": t.elapsed().as_millis() as u64})
+}
+
+/// ECDSA signature shape cells: sign with the real KeyPair::sign until every wanted cell
+/// (number of leading zero bytes of R / of S: 0, 1, >=2) has a witness; every signature is checked
+/// by the independent fixed-width verifier.
+fn sigshapes(req: &Value) -> Value {
+	let kt_name = req.get("key_type").and_then(|v| v.as_str()).unwrap_or("ecdsa-p256");
+	let cap = req.get("cap").and_then(|v| v.as_u64()).unwrap_or(1 << 22);
+	let want2 = req.get("want2").and_then(|v| v.as_bool()).unwrap_or(true);
+	let kt: acme_common::crypto::KeyType = match kt_name.parse() {
+		Ok(k) => k,
+		Err(_) => return json!({"ok": false, "machinery_error": "bad key type"}),
+	};
+	let alg = kt.get_default_signature_alg();
+	let size = match kt_name {
+		"ecdsa-p256" => 32,
+		"ecdsa-p384" => 48,
+		_ => 66,
+	};
+	let nkeys = req.get("keys").and_then(|v| v.as_u64()).unwrap_or(4);
+	let mut cells: std::collections::BTreeMap<String, u64> = Default::default();
+	let mut failures = vec![];
+	let mut n: u64 = 0;
+	let mut verified: u64 = 0;
+	let mut samples = vec![];
+	let done = |cells: &std::collections::BTreeMap<String, u64>| {
+		let need: Vec<&str> = if want2 {
+			vec!["r0", "r1", "s0", "s1", "r2+", "s2+"]
+		} else {
+			vec!["r0", "r1", "s0", "s1"]
+		};
+		need.iter().all(|c| cells.get(*c).copied().unwrap_or(0) > 0)
+	};
+	'outer: for k in 0..nkeys.max(1) {
+		let key = acme_common::crypto::gen_keypair(kt).unwrap();
+		let jwk = key.jwk_public_key().unwrap();
+		let pk = match cu::jwk_to_pubkey(&jwk) {
+			Ok(p) => p,
+			Err(e) => {
+				failures.push(json!({"jwk": jwk, "error": e}));
+				break;
+			}
+		};
+		loop {
+			if n >= cap {
+				break 'outer;
+			}
+			// spread the budget over the keys unless the cells are still missing
+			if k + 1 < nkeys && n >= (k + 1) * 2000 && done(&cells) {
+				continue 'outer;
+			}
+			if k + 1 == nkeys && done(&cells) && n >= nkeys * 2000 {
+				break 'outer;
+			}
+			let msg = format!("eyJhbGciOiJ4In0.message-{n}");
+			n += 1;
+			let sig = match key.sign(&alg, msg.as_bytes()) {
+				Ok(s) => s,
+				Err(e) => {
+					failures.push(json!({"msg": msg, "error": e.message}));
+					continue;
+				}
+			};
+			let lz = |b: &[u8]| b.iter().take_while(|x| **x == 0).count();
+			if sig.len() == 2 * size {
+				let (r, s) = (lz(&sig[..size]), lz(&sig[size..]));
+				let name = |p: &str, z: usize| format!("{p}{}", if z >= 2 { "2+".to_string() } else { z.to_string() });
+				*cells.entry(name("r", r)).or_insert(0) += 1;
+				*cells.entry(name("s", s)).or_insert(0) += 1;
+				if (r >= 1 || s >= 1) && samples.len() < 3 {
+					samples.push(json!({"msg": msg, "sig_hex": cu::hexs(&sig), "r_zero_bytes": r, "s_zero_bytes": s}));
+				}
+			}
+			// full verification for every signature in a rare cell, the first 2000 of each key and
+			// every 16th after that; the length check above/below is applied to every signature
+			let rare = sig.len() != 2 * size || sig[0] == 0 || sig[size] == 0;
+			if sig.len() != 2 * size && failures.len() < 50 {
+				failures.push(json!({"msg": msg, "sig_hex": cu::hexs(&sig), "sig_len": sig.len(), "error": format!("signature has {} bytes instead of {}", sig.len(), 2 * size)}));
+				continue;
+			}
+			if !(rare || n % 16 == 0 || n < (k + 1) * 2000) {
+				continue;
+			}
+			verified += 1;
+			if let Err(e) = cu::verify_sig(&pk, &alg.to_string(), msg.as_bytes(), &sig) {
+				if failures.len() < 5 {
+					failures.push(json!({"msg": msg, "sig_hex": cu::hexs(&sig), "sig_len": sig.len(), "jwk": jwk, "error": e}));
+				} else {
+					failures.push(json!({"error": e}));
+				}
+				if failures.len() > 50 {
+					break 'outer;
+				}
+			}
+		}
+	}
+	json!({"ok": true, "key_type": kt_name, "signatures": n, "verified": verified, "cells": cells, "all_cells": done(&cells), "failures": failures, "samples": samples, "cap_hit": n >= cap})
 }
